@@ -380,6 +380,17 @@ func mapRefMembers(cfg gen.Config) []member {
 		out = append(out, member{name: fmt.Sprintf("map with values given by reference required=%v", req), cfg: cfg, root: &fam.Spec{Kind: "object", Props: []*fam.Prop{
 			{Label: "servers", Spec: &fam.Spec{Kind: "object", AddPropsSpec: vo}, Required: req}, {Label: "labels", Spec: &fam.Spec{Kind: "object", AddPropsSpec: vs}, Required: req}}}})
 	}
+	// a map whose value schema has NO "type" keyword of its own: it is typed through an enum / through a composition of objects
+	{
+		ev := &fam.Spec{Kind: "any", Enum: "strings"}
+		av := &fam.Spec{Kind: "object", NoType: true, AllOf: []*fam.Spec{
+			{Kind: "object", Props: []*fam.Prop{{Label: "host", Spec: &fam.Spec{Kind: "string"}, Required: true}}},
+			{Kind: "object", Props: []*fam.Prop{{Label: "port", Spec: &fam.Spec{Kind: "integer"}}}}}}
+		out = append(out, member{name: "map with an untyped enum as value schema", cfg: cfg, root: &fam.Spec{Kind: "object", Props: []*fam.Prop{
+			{Label: "modes", Spec: &fam.Spec{Kind: "object", AddPropsSpec: ev}, Required: true}}}})
+		out = append(out, member{name: "map with a composition of objects as value schema", cfg: cfg, root: &fam.Spec{Kind: "object", Props: []*fam.Prop{
+			{Label: "servers", Spec: &fam.Spec{Kind: "object", AddPropsSpec: av}, Required: true}}}})
+	}
 	// a map whose value schema is typed and ALSO carries a "not" keyword (which the generator does not translate): the value type is
 	// still the one its "type" states
 	for _, vt := range []string{"string", "integer"} {
